@@ -15,19 +15,70 @@ attribute [z80spec] exec execOpt execMain execXY execXYCB Spec.executeOne consum
   readLoc writeLoc rmwLoc getR setR getXY setXY regU16 regOf get16 set16 condHolds addDisp
   aluApply doAlu pushSite blkElem portIn portOut setAF ccfSt scfSt add16St adc16St sbc16St exxSt
   decodeBase decodeCB decodeED decodeXY decodeXYCB inXYSet r8 r8plain hlOf rpOf rp2Of condOf aluOf rotOf
-  Impl.koron
+  Impl.koron res8 set8 and8 or8 xor8 rld8 rrd8
 
-/-- literal offsets: normalise `x - k` and `(x + a) + b` to `x + lit` -/
-@[z80helper] theorem sub_lit16 (x : U16) (k : Nat) : x - BitVec.ofNat 16 k = x + (-(BitVec.ofNat 16 k)) :=
-  BitVec.sub_eq_add_neg ..
-@[z80helper] theorem add_lit_lit16 (x : U16) (a b : Nat) :
-    x + BitVec.ofNat 16 a + BitVec.ofNat 16 b = x + (BitVec.ofNat 16 a + BitVec.ofNat 16 b) :=
-  BitVec.add_assoc ..
-@[z80helper] theorem sub_lit8 (x : U8) (k : Nat) : x - BitVec.ofNat 8 k = x + (-(BitVec.ofNat 8 k)) :=
-  BitVec.sub_eq_add_neg ..
-@[z80helper] theorem add_lit_lit8 (x : U8) (a b : Nat) :
-    x + BitVec.ofNat 8 a + BitVec.ofNat 8 b = x + (BitVec.ofNat 8 a + BitVec.ofNat 8 b) :=
-  BitVec.add_assoc ..
+/-- literal word offsets: `x - k` and `(x + a) + b` are normalised to `x + lit` (specific literals
+    only: a generic `BitVec.ofNat 16 k` pattern sends the unifier into structure eta on `BitVec`) -/
+@[z80helper] theorem sub1_16 (x : U16) : x - 1#16 = x + 65535#16 := by
+  bv_omega
+@[z80helper] theorem sub2_16 (x : U16) : x - 2#16 = x + 65534#16 := by
+  bv_omega
+@[z80helper] theorem add_1_1_16 (x : U16) : x + 1#16 + 1#16 = x + 2#16 := by
+  rw [BitVec.add_assoc]; rfl
+@[z80helper] theorem add_1_2_16 (x : U16) : x + 1#16 + 2#16 = x + 3#16 := by
+  rw [BitVec.add_assoc]; rfl
+@[z80helper] theorem add_1_65535_16 (x : U16) : x + 1#16 + 65535#16 = x := by
+  rw [BitVec.add_assoc]; exact BitVec.add_zero x
+@[z80helper] theorem add_1_65534_16 (x : U16) : x + 1#16 + 65534#16 = x + 65535#16 := by
+  rw [BitVec.add_assoc]; rfl
+@[z80helper] theorem add_2_1_16 (x : U16) : x + 2#16 + 1#16 = x + 3#16 := by
+  rw [BitVec.add_assoc]; rfl
+@[z80helper] theorem add_2_2_16 (x : U16) : x + 2#16 + 2#16 = x + 4#16 := by
+  rw [BitVec.add_assoc]; rfl
+@[z80helper] theorem add_2_65535_16 (x : U16) : x + 2#16 + 65535#16 = x + 1#16 := by
+  rw [BitVec.add_assoc]; rfl
+@[z80helper] theorem add_2_65534_16 (x : U16) : x + 2#16 + 65534#16 = x := by
+  rw [BitVec.add_assoc]; exact BitVec.add_zero x
+@[z80helper] theorem add_3_1_16 (x : U16) : x + 3#16 + 1#16 = x + 4#16 := by
+  rw [BitVec.add_assoc]; rfl
+@[z80helper] theorem add_3_2_16 (x : U16) : x + 3#16 + 2#16 = x + 5#16 := by
+  rw [BitVec.add_assoc]; rfl
+@[z80helper] theorem add_3_65535_16 (x : U16) : x + 3#16 + 65535#16 = x + 2#16 := by
+  rw [BitVec.add_assoc]; rfl
+@[z80helper] theorem add_3_65534_16 (x : U16) : x + 3#16 + 65534#16 = x + 1#16 := by
+  rw [BitVec.add_assoc]; rfl
+@[z80helper] theorem add_4_1_16 (x : U16) : x + 4#16 + 1#16 = x + 5#16 := by
+  rw [BitVec.add_assoc]; rfl
+@[z80helper] theorem add_4_2_16 (x : U16) : x + 4#16 + 2#16 = x + 6#16 := by
+  rw [BitVec.add_assoc]; rfl
+@[z80helper] theorem add_4_65535_16 (x : U16) : x + 4#16 + 65535#16 = x + 3#16 := by
+  rw [BitVec.add_assoc]; rfl
+@[z80helper] theorem add_4_65534_16 (x : U16) : x + 4#16 + 65534#16 = x + 2#16 := by
+  rw [BitVec.add_assoc]; rfl
+@[z80helper] theorem add_65535_1_16 (x : U16) : x + 65535#16 + 1#16 = x := by
+  rw [BitVec.add_assoc]; exact BitVec.add_zero x
+@[z80helper] theorem add_65535_2_16 (x : U16) : x + 65535#16 + 2#16 = x + 1#16 := by
+  rw [BitVec.add_assoc]; rfl
+@[z80helper] theorem add_65535_65535_16 (x : U16) : x + 65535#16 + 65535#16 = x + 65534#16 := by
+  rw [BitVec.add_assoc]; rfl
+@[z80helper] theorem add_65535_65534_16 (x : U16) : x + 65535#16 + 65534#16 = x + 65533#16 := by
+  rw [BitVec.add_assoc]; rfl
+@[z80helper] theorem add_65534_1_16 (x : U16) : x + 65534#16 + 1#16 = x + 65535#16 := by
+  rw [BitVec.add_assoc]; rfl
+@[z80helper] theorem add_65534_2_16 (x : U16) : x + 65534#16 + 2#16 = x := by
+  rw [BitVec.add_assoc]; exact BitVec.add_zero x
+@[z80helper] theorem add_65534_65535_16 (x : U16) : x + 65534#16 + 65535#16 = x + 65533#16 := by
+  rw [BitVec.add_assoc]; rfl
+@[z80helper] theorem add_65534_65534_16 (x : U16) : x + 65534#16 + 65534#16 = x + 65532#16 := by
+  rw [BitVec.add_assoc]; rfl
+@[z80helper] theorem add_65533_1_16 (x : U16) : x + 65533#16 + 1#16 = x + 65534#16 := by
+  rw [BitVec.add_assoc]; rfl
+@[z80helper] theorem add_65533_2_16 (x : U16) : x + 65533#16 + 2#16 = x + 65535#16 := by
+  rw [BitVec.add_assoc]; rfl
+@[z80helper] theorem add_65533_65535_16 (x : U16) : x + 65533#16 + 65535#16 = x + 65532#16 := by
+  rw [BitVec.add_assoc]; rfl
+@[z80helper] theorem add_65533_65534_16 (x : U16) : x + 65533#16 + 65534#16 = x + 65531#16 := by
+  rw [BitVec.add_assoc]; rfl
 
 -- folding the Go spellings of byte/word packing into mk16 / hi8 / lo8
 @[z80helper] theorem fold_mk16 (h l : U8) : (h.setWidth 16 <<< 8) ||| l.setWidth 16 = mk16 h l := rfl
@@ -54,5 +105,23 @@ attribute [z80helper] hi8_mk16 lo8_mk16 mk16_hi_lo hi8_inc lo8_inc hi8_dec lo8_d
 @[z80helper] theorem mask20 : ∀ f : U8, (f &&& 32#8 = 0#8 ↔ f[5] = false) := by decide
 @[z80helper] theorem mask40 : ∀ f : U8, (f &&& 64#8 = 0#8 ↔ f[6] = false) := by decide
 @[z80helper] theorem mask80 : ∀ f : U8, (f &&& 128#8 = 0#8 ↔ f[7] = false) := by decide
+
+theorem ne_zero16 (v : U16) : (v != 0#16) = (lo8 v != 0#8 || hi8 v != 0#8) := by
+  have h : v = 0#16 ↔ (lo8 v = 0#8 ∧ hi8 v = 0#8) := by
+    constructor
+    · intro e; subst e; exact ⟨rfl, rfl⟩
+    · intro ⟨e1, e2⟩
+      rw [← mk16_hi_lo v, e1, e2]; rfl
+  by_cases hv : v = 0#16
+  · subst hv; rfl
+  · have : ¬(lo8 v = 0#8 ∧ hi8 v = 0#8) := fun c => hv (h.2 c)
+    have e1 : (v != 0#16) = true := by simp [hv]
+    rw [e1]
+    by_cases h1 : lo8 v = 0#8 <;> by_cases h2 : hi8 v = 0#8 <;> simp [h1, h2]
+    exact this ⟨h1, h2⟩
+
+@[z80helper] theorem dec16_ne_zero (h l : U8) :
+    (mk16 h l + 65535#16 != 0#16) = (l - 1#8 != 0#8 || (if l - 1#8 = 255#8 then h - 1#8 else h) != 0#8) := by
+  rw [ne_zero16, hi8_dec, lo8_dec]
 
 end Z80
